@@ -60,16 +60,39 @@ class Marker:
 
 
 def abstract_callees(S):
+    """mask_password (another public function, C04) is replaced by a marker;
+    nested mappings are processed by the REAL code, however it recurses
+    (through the public name, a closure, an explicit stack, ...)."""
     real = S.mask_dict_password
-
-    def MDP(dictionary, secret='***'):
-        return Marker('MDP', dictionary, secret)
 
     def MP(message, secret='***'):
         return Marker('MP', message, secret)
-    model(S, 'mask_dict_password', MDP)
     model(S, 'mask_password', MP)
     return real
+
+
+def nested_ok(got, nested, secret):
+    """got is what the property prescribes for the (concrete, flat) nested
+    mapping: a new dict, same keys in order, masked / marked / identical
+    values."""
+    items = list(nested.items())
+    if not (isinstance(got, dict) and got is not nested
+            and list(got.keys()) == [k for k, _v in items]):
+        return False
+    for k, v in items:
+        g = got[k]
+        sensitive = isinstance(k, str) and any(
+            [key in k.lower() for key in KEYS])
+        if sensitive:
+            ok = g == secret
+        elif isinstance(v, str):
+            ok = isinstance(g, Marker) and g.kind == 'MP' and g.arg is v \
+                and g.secret == secret
+        else:
+            ok = g is v
+        if not ok:
+            return False
+    return True
 
 
 @proof('C08', targets=[(SU, '_SANITIZE_KEYS')])
@@ -123,8 +146,7 @@ def one_item_any_key_any_value():
     is_mapping = vkind in ('dict', 'empty-dict', 'frozenmap')
     if is_mapping:
         check('one/nested-mapping-processed-recursively-with-same-secret',
-              isinstance(got, Marker) and got.kind == 'MDP' and got.arg is v
-              and got.secret == secret)
+              nested_ok(got, v, secret))
     else:
         if kkind == 'str':
             sensitive = disj([key in k.lower() for key in KEYS])
@@ -168,11 +190,10 @@ def many_items_each_processed_once():
     check('many/sensitive-key', r['Admin_Password2'] == '***')
     check('many/plain-string', isinstance(r['user'], Marker)
           and r['user'].kind == 'MP' and r['user'].arg is s2)
-    check('many/nested', isinstance(r['nested'], Marker)
-          and r['nested'].kind == 'MDP' and r['nested'].arg is nested)
+    check('many/nested', nested_ok(r['nested'], nested, '***'))
     check('many/nested-under-sensitive-key-still-recursed',
-          isinstance(r['my_secret_uuid'], Marker)
-          and r['my_secret_uuid'].kind == 'MDP')
+          nested_ok(r['my_secret_uuid'], nested, '***')
+          and r['my_secret_uuid'] is not r['nested'])
     check('many/int-key-string-value', isinstance(r[5], Marker)
           and r[5].kind == 'MP')
     check('many/non-string-key-never-sensitive',
